@@ -27,7 +27,8 @@ def stale_spec(rng, vapp_models):
             fields.append({'name': 'pals', 'type': 'ManyToManyField', 'attrs': {}, 'related': 'yapp.%s' % names[0]})
         if vapp_models and rng.random() < 0.6:
             # several many-to-many fields on one model: each owns an automatically created table
-            fields.append({'name': 'mates', 'type': 'ManyToManyField', 'attrs': {}, 'related': 'vapp.%s' % rng.choice(vapp_models)})
+            fields.append({'name': 'mates', 'type': rng.choice(['ManyToManyField', 'TagsField']), 'attrs': {},
+                           'related': 'vapp.%s' % rng.choice(vapp_models)})
             if rng.random() < 0.6:
                 fields.append({'name': 'fans', 'type': 'ManyToManyField', 'attrs': {},
                                'related': 'vapp.%s' % rng.choice(vapp_models)})
@@ -50,14 +51,16 @@ def setup_project(rng, seed, with_stale=True):
                   {'name': 'n', 'type': 'IntegerField', 'attrs': {'null': True}, 'related': None},
                   {'name': 'link', 'type': 'ForeignKey', 'attrs': {'null': True}, 'related': 'vapp.%s' % rng.choice(vnames)},
                   {'name': 'many', 'type': 'ManyToManyField', 'attrs': {}, 'related': 'vapp.%s' % rng.choice(vnames)},
-                  {'name': 'more', 'type': 'ManyToManyField', 'attrs': {}, 'related': 'vapp.%s' % rng.choice(vnames)}]}
+                  {'name': 'more', 'type': rng.choice(['ManyToManyField', 'TagsField']), 'attrs': {},
+                   'related': 'vapp.%s' % rng.choice(vnames)}]}
     spec['apps'].append({'id': 'wapp', 'models': [wmodel]})
     # a model of the evolved app with two many-to-many fields (a DeleteModel candidate)
     spec['apps'][0]['models'].append({
         'name': 'Hub', 'table': 'vapp_hub', 'unique_together': [], 'index_together': [], 'indexes': [], 'constraints': [],
         'fields': [{'name': 'id', 'type': 'AutoField', 'attrs': {'primary_key': True}, 'related': None},
                    {'name': 'spokes', 'type': 'ManyToManyField', 'attrs': {}, 'related': 'vapp.%s' % rng.choice(vnames)},
-                   {'name': 'rims', 'type': 'ManyToManyField', 'attrs': {}, 'related': 'vapp.%s' % rng.choice(vnames)}]})
+                   {'name': 'rims', 'type': rng.choice(['ManyToManyField', 'TagsField']), 'attrs': {},
+                    'related': 'vapp.%s' % rng.choice(vnames)}]})
     evorig.fresh_databases()
     evorig.clear_evolutions()
     models = evorig.install_models(spec)
@@ -90,7 +93,7 @@ def owned_tables(app_spec):
     for m in app_spec['models']:
         out.append(m['table'])
         for f in m['fields']:
-            if f['type'] == 'ManyToManyField':
+            if f['type'] in sigs.M2M_TYPES:
                 out.append(f['attrs'].get('db_table') or '%s_%s' % (m['table'], f['name']))
     return sorted(out)
 
